@@ -64,7 +64,7 @@ func renderPoints(ps []*object.Point, err error) Result {
 		r.Raw = append(r.Raw, fmtF(p.Lon())+","+fmtF(p.Lat())+","+fmtF(p.Alt()))
 	}
 	for i, p := range ps { // the caller owns the returned points
-		if p != nil {
+		if p != nil && !noScribble {
 			p.SetAlt(-12345.5)
 			p.SetLon(-179.5)
 		}
